@@ -205,10 +205,41 @@ func (rs *readSummary) of(f *ssa.Function, k int) (map[int]bool, bool) {
 			case *ssa.Phi:
 				visit(u)
 			case *ssa.MakeClosure:
-				known = false
+				// captured: reads inside the closure through the free variable
+				if g, ok := u.Fn.(*ssa.Function); ok {
+					for bi, b := range u.Bindings {
+						if b == v && bi < len(g.FreeVars) {
+							visit(g.FreeVars[bi])
+						}
+					}
+				}
 			case *ssa.Store:
 				if u.Val == v {
-					known = false // escapes into memory
+					if cell, ok := u.Addr.(*ssa.Alloc); ok {
+						// a local cell holding the pointer (captured receiver): follow its loads
+						for _, r2 := range core.Refs(cell) {
+							switch w := r2.(type) {
+							case *ssa.UnOp:
+								if w.Op == token.MUL {
+									visit(w)
+								}
+							case *ssa.MakeClosure:
+								if g, ok := w.Fn.(*ssa.Function); ok {
+									for bi, b := range w.Bindings {
+										if b == ssa.Value(cell) && bi < len(g.FreeVars) {
+											for _, r3 := range core.Refs(g.FreeVars[bi]) {
+												if ld, ok := r3.(*ssa.UnOp); ok && ld.Op == token.MUL {
+													visit(ld)
+												}
+											}
+										}
+									}
+								}
+							}
+						}
+					} else {
+						known = false // escapes into memory
+					}
 				}
 			case *ssa.MakeInterface, *ssa.ChangeInterface:
 				// converted to an interface: used through dynamic dispatch
